@@ -74,7 +74,7 @@ theorem c11_stream (hw : WFW c cu w) : C11Holds c cu w .stream := by
   intro w' o h
   simp only [step] at h
   obtain ⟨r, h1, rfl, rfl⟩ := obs_inv h
-  rw [cstrView_abs hw.1] at h1; cases h1
+  rw [streamView_abs hw.1] at h1; cases h1
   exact c11_obs hw.1 (by simp only [spec])
 
 theorem c11_ctF (hw : WFW c cu w) (f : Sel) (hd : inDomain (npos c) w (.ctF f) = true) :
